@@ -951,3 +951,6 @@ from harness.mixins import add_family as _add_family    # noqa: E402
 _add_family(globals(), _ru, 'reuseupd', _ru.oracle, share=0.02)
 from harness import onceset as _os                      # noqa: E402
 _add_family(globals(), _os, 'onceset', _os.oracle, share=0.02)
+# the `_divide` update handed in is not modified (F43)
+from harness import composerdiv as _cdv                 # noqa: E402
+_add_family(globals(), _cdv, 'composerdiv', _cdv.oracle, share=0.01)
